@@ -60,9 +60,15 @@ func (m *model) compute(name string) ([]byte, bool) {
 		return nil, false
 	}
 	h := m.newH()
-	h.Write([]byte(name))
+	// anything the hash refuses makes the challenge not computable (never the case for SHA-256 and for MiMC in its
+	// default byte order; a little-endian MiMC refuses names and previous values that are not canonical in that order)
+	if _, err := h.Write([]byte(name)); err != nil {
+		return nil, false
+	}
 	if i > 0 {
-		h.Write(m.ch[i-1].value)
+		if _, err := h.Write(m.ch[i-1].value); err != nil {
+			return nil, false
+		}
 	}
 	for _, b := range m.ch[i].bindings {
 		// a value the hash refuses (MiMC: not a sequence of canonical field elements) cannot be hashed: the
@@ -127,7 +133,16 @@ func fmtHist(names []string, h []event) string {
 // runHistory replays one history on the library and on the model, comparing after each step.
 // returns a classification string of the history (for distinct counting).
 func runHistory(c *mon.Ctx, cfg hcfg, names []string, hist []event) {
-	t := fiatshamir.NewTranscript(cfg.newH(), names...)
+	// the names are passed as the caller's own slice, which is reused for something else right away: the transcript
+	// keeps what it was given, not a view of the caller's storage
+	ids := append([]string(nil), names...)
+	t := fiatshamir.NewTranscript(cfg.newH(), ids...)
+	for i := range ids {
+		ids[i] = names[(i+1)%len(names)] + "'"
+	}
+	if len(ids) > 1 {
+		ids[len(ids)-1] = names[0] // an already known name in another position
+	}
 	m := newModel(cfg.newH, names)
 	var lastBound, lastRet []byte
 	lastRetRecomputed := false
@@ -290,11 +305,26 @@ func main() {
 		}
 		return append(mimcVal(ctr), 0x01) // not a whole number of blocks
 	}
+	// MiMC configured for little-endian input: every block reversed (values that are canonical in that order); the
+	// transcript resets the hasher before every challenge, and a reset keeps the configuration
+	rev := func(b []byte) []byte {
+		out := make([]byte, len(b))
+		for k := 0; k+32 <= len(b); k += 32 {
+			for j := 0; j < 32; j++ {
+				out[k+j] = b[k+31-j]
+			}
+		}
+		copy(out[len(b)/32*32:], b[len(b)/32*32:])
+		return out
+	}
+	mimcValLE := func(ctr int) []byte { return rev(mimcVal(ctr)) }
+	mimcBadLE := func(ctr int) []byte { return rev(mimcBad(ctr)) }
 	cfgs := []hcfg{
 		{"sha256", sha256.New, []string{"alpha", "beta", "gamma", "delta"}, shaVal, nil},
 		{"mimc", func() hash.Hash { return mimc.NewMiMC() }, []string{"a", "bb", "gamma", "d"}, mimcVal, mimcBad},
+		{"mimc-le", func() hash.Hash { return mimc.NewMiMC(mimc.WithByteOrder(fr.LittleEndian)) }, []string{"a" + strings.Repeat("-", 30) + " ", "b" + strings.Repeat("-", 30) + " ", "c" + strings.Repeat("-", 30) + " ", "bb"}, mimcValLE, mimcBadLE}, // 32 printable bytes, last one < 0x30: canonical in little endian
 	}
-	maxLen := map[string]int{"sha256": c.Pick(6, 7), "mimc": c.Pick(4, 5)}
+	maxLen := map[string]int{"sha256": c.Pick(6, 7), "mimc": c.Pick(4, 5), "mimc-le": c.Pick(3, 4)}
 	exhaustive := int64(0)
 	for _, cfg := range cfgs {
 		for nn := 1; nn <= 3; nn++ {
